@@ -483,10 +483,91 @@ def bip85(ctx):
     return st
 
 
+# ------------------------------------------------------------------------------------------------ Electrum normalization
+# Electrum's own table (electrum/mnemonic.py, CJK_INTERVALS), transcribed: (first, last) code point, both inclusive.
+ELECTRUM_CJK = [(0x4E00, 0x9FFF), (0x3400, 0x4DBF), (0x20000, 0x2A6DF), (0x2A700, 0x2B73F), (0x2B740, 0x2B81F), (0xF900, 0xFAFF), (0x2F800, 0x2FA1D), (0x3190, 0x319F),
+                (0x2E80, 0x2EFF), (0x2F00, 0x2FDF), (0x31C0, 0x31EF), (0x2FF0, 0x2FFF), (0xE0100, 0xE01EF), (0x3100, 0x312F), (0x31A0, 0x31BF), (0xFF00, 0xFFEF),
+                (0x3040, 0x309F), (0x30A0, 0x30FF), (0x31F0, 0x31FF), (0x1B000, 0x1B0FF), (0xAC00, 0xD7AF), (0x1100, 0x11FF), (0xA960, 0xA97F), (0xD7B0, 0xD7FF),
+                (0x3130, 0x318F), (0xA4D0, 0xA4FF), (0x16F00, 0x16F9F), (0xA000, 0xA48F), (0xA490, 0xA4CF)]
+
+
+def ref_is_cjk(ch):
+    n = ord(ch)
+    return any(lo <= n <= hi for lo, hi in ELECTRUM_CJK)
+
+
+def ref_electrum_normalize(text):
+    """Electrum's normalize_text: NFKD, lower, combining marks dropped, whitespace collapsed, whitespace between two CJK removed."""
+    import string
+    import unicodedata
+    t = unicodedata.normalize("NFKD", text).lower()
+    t = "".join(c for c in t if not unicodedata.combining(c))
+    t = " ".join(t.split())
+    return "".join(t[i] for i in range(len(t)) if not (t[i] in string.whitespace and ref_is_cjk(t[i - 1]) and ref_is_cjk(t[i + 1])))
+
+
+def _cjk_shard(rng):
+    from btclib.mnemonic import electrum
+
+    st = Stats()
+    lo, hi = rng
+    for n in range(lo, hi):
+        if 0xD800 <= n <= 0xDFFF:
+            continue
+        st.evals += 1
+        ch = chr(n)
+        exp = ref_is_cjk(ch)
+        if exp:
+            st.nontrivial += 1
+        if electrum._is_cjk(ch) is not exp:
+            st.violation("C13/electrum/is-cjk-differs-from-electrum-table", {"code_point": hex(n)}, not exp, exp)
+    return st
+
+
+def electrum_normalization(ctx):
+    """Every code point's CJK verdict; the normalization of every short string over interval-edge characters; and its effect
+    on what a seed is: version and master key of sentences holding an edge character."""
+    from btclib.mnemonic import electrum
+
+    step = 0x11000
+    st = ctx.pmap(_cjk_shard, [(a, min(a + step, 0x110000)) for a in range(0, 0x110000, step)])
+    errs = lib_errors()
+    edges = sorted({chr(c) for lo, hi in ELECTRUM_CJK for c in (lo - 1, lo, lo + 1, hi, hi + 1) if not 0xD800 <= c <= 0xDFFF})
+    others = ["a", "Z", "e\u0301", "\u3000", "1"]
+    alphabet = edges + others
+    for a in alphabet:
+        for b in alphabet:
+            for sep in (" ", "  ", "\u3000", "\t", ""):
+                for text in (a + sep + b, "x " + a + sep + b + " y"):
+                    st.evals += 1
+                    st.nontrivial += 1
+                    exp = ref_electrum_normalize(text)
+                    try:
+                        got = electrum._normalize(text)
+                    except errs as e:
+                        got = "refused " + repr(e)[:40]
+                    if got != exp:
+                        st.violation("C13/electrum/normalization-differs-from-electrum", {"text": [hex(ord(c)) for c in text]}, [hex(ord(c)) for c in got], [hex(ord(c)) for c in exp])
+    # what a passphrase stretches to: the seed of (mnemonic, passphrase) equals PBKDF2 over the reference normalization
+    import hashlib as _h
+    mn = electrum.mnemonic_from_entropy("standard", 1, "en")
+    for pp in ["", "\u4e00 \u4e01", "\u4dff \u4e00", "\u1100 \u1101 x", "\u9fff \ua000", "A  b\u0301"]:
+        st.evals += 1
+        exp = _h.pbkdf2_hmac("sha512", ref_electrum_normalize(mn).encode(), ("electrum" + ref_electrum_normalize(pp)).encode(), 2048)
+        try:
+            got = electrum._seed_from_mnemonic(mn, pp) if hasattr(electrum, "_seed_from_mnemonic") else None
+        except errs:
+            got = None
+        if got is not None and got[1] != exp:
+            st.violation("C13/electrum/seed-differs-from-electrum", {"passphrase": [hex(ord(c)) for c in pp]}, got[1].hex()[:16], exp.hex()[:16])
+    return st
+
+
 SUBS = [
     ("bip39_words", bip39_words),
     ("seeds", seeds),
     ("electrum_versions", electrum_versions),
+    ("electrum_normalization", electrum_normalization),
     ("slip39_thresholds", slip39_thresholds),
     ("slip39_api", slip39_api),
     ("bip85", bip85),
